@@ -467,7 +467,7 @@ pub fn run(ctx: &Ctx) -> PropertyReport {
     rep.assume("SecurityCapabilities and Vector2int16 elements are not described by docs/xml.md; the writer direction decodes them by analogy and tallies them, the reader direction does not generate them");
     let sub = crate::engine::replay_subcheck_or_all(ctx);
     if sub.runs("writer") {
-        let cases = ctx.cfg.cases(20_000, 300_000);
+        let cases = ctx.cfg.cases(20_000, 2_000_000);
         let strat = || {
             (forest::forest(writer_profile(10, TextMode::Xml)), any::<bool>()).prop_map(|(forest, write_unknown)| WriterCase { forest, write_unknown })
         };
@@ -477,7 +477,7 @@ pub fn run(ctx: &Ctx) -> PropertyReport {
         rep.push(r);
     }
     if sub.runs("reader") {
-        let cases = ctx.cfg.cases(40_000, 600_000);
+        let cases = ctx.cfg.cases(40_000, 4_000_000);
         let strat = || {
             prop_oneof![
                 (forest::forest(reader_profile(10, true)), plan_strategy()).prop_map(|(forest, plan)| ReaderCase { forest, plan, read_unknown: false }),
